@@ -16,6 +16,8 @@ pub mod smutil;
 pub mod auth;
 pub mod console;
 pub mod node;
+pub mod config;
+pub mod seq;
 
 pub fn make(name: &str) -> Option<Box<dyn Suite>> {
     match name {
@@ -29,6 +31,8 @@ pub fn make(name: &str) -> Option<Box<dyn Suite>> {
         "snapfile" => Some(Box::new(snapfile::SnapFile::new())),
         "auth" => Some(Box::new(auth::Auth::new())),
         "console" => Some(Box::new(console::Console::new())),
+        "config" => Some(Box::new(config::Config::new())),
+        "seq" => Some(Box::new(seq::Seq::new())),
         _ => None,
     }
 }
